@@ -18,6 +18,7 @@ From V Require Import Spec.Shape.
 From V Require Import Spec.SpSpec.
 From V Require Import Gen.Nodes Gen.TableRows Spec.Valid.
 From V Require Import Gen.CmGen Model.Cm Spec.CmSpec.
+From V Require Import Spec.SourcePos Spec.SourcePosKnown.
 Extraction Language OCaml.
 Set Extraction KeepSingleton.
 
@@ -190,4 +191,11 @@ Extraction "model.ml"
   CmSpec.cm_shape
   CmSpec.cm_no_ol_overflow
   CmSpec.has_run
+  SourcePos.lines_of
+  SourcePos.fails_go
+  SourcePos.slice
+  SourcePos.sp_in_bounds
+  SourcePos.sp_nested
+  SourcePos.sp_slice_ok
+  SourcePosKnown.classify
 .
